@@ -70,6 +70,20 @@ check("C02", "exploration",
       "Trusted: the representation formula; reference point-triangle distance and winding number. Thresholds are the property's (1e-6 for order>=12).",
       "exhaustive lattice sweep (mesh x representation x order x evaluation lattice) against Green's representation formula")
 
+check("C16", "model_checking",
+      "Three layers on the real code. A: the colouring invariant (same colour => disjoint local2global entries, zero-multiplier "
+      "entries included) on every space of the C09 lattice and its localised/barycentric forms. B: the launches the library really "
+      "makes for 11 boundary operators and 7 potentials/far fields are captured; the kernels' own Python source (py_func) is run "
+      "with instrumented shared arrays; ALL pairs of iterations of every launch are checked for conflicting accesses; ALL "
+      "interleavings of 2 and 3 iterations are enumerated by an explicit-state search at load/store granularity (terminal memory "
+      "must equal the sequential one bitwise); model schedules with a bounded number of preemptions are replayed on the real "
+      "py_func under a baton scheduler and must reproduce the recorded trace and the predicted memory. C: compiled kernels with "
+      "1/2/7/16 threads, bitwise equality (sampling, cross-check only).",
+      "DESIGN.md 4/C16",
+      "Trusted: CPython executes the kernel source with the same data flow as the compiled code (layer C cross-checks); weak memory "
+      "orderings and the OpenMP runtime are outside the model.",
+      "stateless/explicit-state interleaving exploration of prange bodies under a controlled scheduler + exhaustive colouring lattice")
+
 ALL = ["C%02d" % i for i in range(1, 21)]
 
 
